@@ -20,6 +20,7 @@ import (
 	"fmt"
 
 	kanzi "github.com/flanglet/kanzi-go/v2"
+	"github.com/flanglet/kanzi-go/v2/internal/simhook"
 )
 
 const (
@@ -92,6 +93,7 @@ func (this *ByteTransformSequence) Forward(src, dst []byte) (uint, uint, error) 
 	for i := range this.transforms {
 		var err error
 		savedLength := length
+		simhook.Point("seq.forward", i)
 
 		if len(out) < requiredSize {
 			if cap(out) >= requiredSize {
@@ -171,6 +173,8 @@ func (this *ByteTransformSequence) Inverse(src, dst []byte) (uint, uint, error) 
 				out = make([]byte, len(dst))
 			}
 		}
+
+		simhook.Point("seq.inverse", i)
 
 		// Apply inverse transform
 		if _, length, err = this.transforms[i].Inverse(in[0:length], out); err != nil {
